@@ -57,13 +57,18 @@ func registerIntrinsics(e *Engine) {
 		e.intercepts["zz:"+name] = func(fr *Frame, a []Value) (Value, bool) { return f(fr, a), true }
 	}
 	reg("zzInt", func(fr *Frame, a []Value) Value {
-		return fr.p.symInt(concStr(a[0]), concI(a[1]), concI(a[2]))
+		lo := fr.p.concInt(a[1].(*smt.T), -1<<40, 1<<40)
+		hi := fr.p.concInt(a[2].(*smt.T), -1<<40, 1<<40)
+		if hi < lo {
+			panic(pathDone{"empty zzInt range"})
+		}
+		return fr.p.symInt(concStr(a[0]), lo, hi)
 	})
 	reg("zzBool", func(fr *Frame, a []Value) Value { return fr.p.symBool(concStr(a[0])) })
 	reg("zzByte", func(fr *Frame, a []Value) Value { return fr.p.symInt(concStr(a[0]), 0, 255) })
 	reg("zzAscii", func(fr *Frame, a []Value) Value { return fr.p.symInt(concStr(a[0]), 0, 127) })
 	reg("zzBytes", func(fr *Frame, a []Value) Value {
-		n := concI(a[1])
+		n := fr.p.concInt(a[1].(*smt.T), 0, 1<<16)
 		out := make([]Value, n)
 		for i := range out {
 			out[i] = fr.p.symInt(concStr(a[0]), 0, 255)
@@ -71,7 +76,7 @@ func registerIntrinsics(e *Engine) {
 		return out
 	})
 	reg("zzString", func(fr *Frame, a []Value) Value {
-		n := concI(a[1])
+		n := fr.p.concInt(a[1].(*smt.T), 0, 1<<16)
 		bs := make([]*smt.T, n)
 		for i := range bs {
 			bs[i] = fr.p.symInt(concStr(a[0]), 0, 127)
